@@ -53,6 +53,7 @@ GLOBAL_REWRITES = [
     ('R4a', r'\bFixedPointOps::UNIT\b', 'N::UNIT', 'UNIT constant of the instance'),
     ('R4b', r'\bT::UNIT\b', 'N::UNIT', 'UNIT constant of the instance'),
     ('R1a', r'\bT::zero\(\)', 'N::zero()', 'monomorphisation'),
+    ('R1e', r'\b(?:P|M|Self)::Num::(zero|one)\(\)', r'N::\1()', 'monomorphisation of the associated number type'),
     ('R1b', r'\bT::one\(\)', 'N::one()', 'monomorphisation'),
     ('R16c', r'(?m)^\s*#\[cfg\(feature = "debug-msg"\)\]\s*\n\s*let [^;]*;', '', 'statement compiled only with the debug-msg feature (used only by debug_msg! logs) dropped'),
     ('R7a', r'(?m)^\s*#\[(inline|allow\([^\]]*\)|must_use)\]\s*$', '', 'attribute dropped'),
@@ -536,7 +537,7 @@ def generate(template_path, repo, out_path):
             inner = blk[blk.index('{') + 1: blk.rindex('}')]
             inner = re.sub(r'//[^\n]*', '', inner)
             inner = re.sub(r'#\[[^\]]*\]', '', inner)
-            got = re.findall(r'(?:pub(?:\([^)]*\))?\s+)?(\w+)\s*:', inner)
+            got = re.findall(r'(?:pub(?:\([^)]*\))?\s+)?(\w+)\s*:(?!:)', inner)
             if got != fields:
                 raise Undecided(f"data carrier drift (lost anchor): {hdr} in {f} has fields {got}, carrier written for {fields}")
             log.append(f"R11 carrier checked: {hdr} fields {fields}")
